@@ -40,6 +40,13 @@ def check(src, rep):
     eg = exit_and_guard(m)
     emit(rep, m, eg, RULE, only=lambda r: r.tag != "trip" or r.instance in ("no-hunt", "lines-kept") or r.kind == "ok")
     emit(rep, m, skeleton(m), RULE)
+    # the collected lines grow by the popped line only: anything else put there (an incomplete line taken out of the buffer early, a transformed copy) is not a transmitted line
+    from sa.p1model import ploc as _ploc
+    for pp in m.paths:
+        for op in pp.post.raw_ops:
+            if isinstance(op, tuple) and op[0] == "other" and ("extend" in str(op[1]) or "append" in str(op[1]) or "+=" in str(op[1])):
+                rep.violation("R2", "dlde.ModeDReader.read", "lines-other-growth", f"the collected lines are extended by something other than the line popped in this step: {op[1]}", m.file, _ploc(m, pp))
+                break
     emit(rep, m, buffer_contracts(m), RULE)
     _initial_state(rep, m)
     from sa.cross import include
